@@ -108,12 +108,15 @@ fn parse_uri(buf: &[u8]) -> Result<(RequestUri<'_>, &[u8]), HttpParsingError> {
     let mut i = 0;
     if !origin_form {
         // scan for the first slash that is NOT part of "://"
+        let mut seen_scheme = false;
         while i < buf.len() {
             let b = buf[i];
 
             match b {
-                // skip the scheme separator "://"
-                b':' if i + 2 < buf.len() && &buf[i..i + 3] == b"://" => {
+                // skip the scheme separator "://" (only the first one: a later "://" is an
+                // empty port followed by a path that starts with an empty segment)
+                b':' if !seen_scheme && i + 2 < buf.len() && &buf[i..i + 3] == b"://" => {
+                    seen_scheme = true;
                     i += 3;
                     continue;
                 }
